@@ -423,7 +423,10 @@ def _job(args):
 
 
 # ----------------------------------------------------------------------------- set-up
-def setup(variant, linger_ms, victims):
+def setup(variant, linger_ms, victims, nvm_from=None):
+    """Build the tree, fake_cop against its headers, and the victims.  The victims are compiled once, by
+    the plain tree's compiler (`nvm_from` = its context): the property is about nano_vm, and a .nvm file
+    is the same input for every build of it."""
     tree = common.build_tree(variant)
     work = os.path.join(common.scratch(), "c16-" + variant)
     fakebin = os.path.join(work, "fakebin")
@@ -437,6 +440,9 @@ def setup(variant, linger_ms, victims):
         raise common.HarnessError("fake_cop does not compile against the tree: " + r.stderr[-3000:])
     nvm = {}
     for v in victims:
+        if nvm_from is not None:
+            nvm[v] = nvm_from["nvm"][v]
+            continue
         text = VICTIMS[v][0] or victim_d()
         p = os.path.join(work, "victim_%s.nano" % v)
         with open(p, "w") as f:
@@ -511,7 +517,7 @@ def run(tier):
     ctxs, bases, reqmaps = {}, {}, {}
     seq_done = False
     for variant, victims in plan:
-        ctx = setup(variant, linger_ms, victims)
+        ctx = setup(variant, linger_ms, victims, nvm_from=ctxs.get("plain"))
         ctxs[variant] = ctx
         bases[variant], reqmaps[variant] = controls(ctx, victims)
         jobs = [(ctx, v, [c]) for v in victims for c in one_fault_cells(v, reqmaps[variant][v]["_reply_tags"])]
@@ -622,7 +628,7 @@ def run(tier):
     })
     rep.assumptions += [
         "K=%d extern calls per victim; 4 victims (straight-line with string/int payloads both ways; loop; heap-valued results; module larger than the pipe)" % K,
-        "every fault is ordered against the VM: at post_ready/post_reply it is completed before the VM can read the preceding message, at req_hdr the request payload is completely in the pipe, so each cell has one outcome",
+        "every fault is ordered against the VM: at post_ready/post_reply it is completed before the VM can read the preceding message, at req_hdr the request payload is completely in the pipe, and a dying co-process closes its stdin before its stdout (the kernel itself gives no order; the other order is the close_stdout fault), so each cell has one outcome",
         "excluded as outside the property: a peer that never answers while the VM legitimately waits (no timeout exists), a peer that ignores SIGTERM, well-formed replies with a wrong value, duplicated well-formed replies",
         "'linger' (wedged, SIGTERM-able peer) is only combined with messages no VM can accept",
         "orphan = descendant of nano_vm still alive (not a zombie) %.0f s after nano_vm exited, found by the sub-reaping runner through /proc" % REMAIN_S,
@@ -644,7 +650,8 @@ def replay(path):
         cell = json.load(f)
     cells = [tuple(c) for c in cell["cells"]]
     victim = cell["victim"]
-    ctx = setup(cell["variant"], cell.get("linger_ms", 1000), [victim])
+    plain = setup("plain", cell.get("linger_ms", 1000), [victim])
+    ctx = plain if cell["variant"] == "plain" else setup(cell["variant"], cell.get("linger_ms", 1000), [victim], nvm_from=plain)
     base, reqmap = controls(ctx, [victim])
     obs = run_case(ctx, victim, cells, timeout=HANG_TIMEOUT)
     ok, cls, detail = judge(VICTIMS[victim], cells, obs, base[victim], reqmap[victim])
